@@ -48,7 +48,13 @@ def topological_sort(source):
 
     # Begin with the parent-less items.
     result = [child for child, parents in source.items() if len(parents) == 0]
-    result.extend([item for item in graph if num_parents[item] == 0])
+    result.extend(
+        [
+            item
+            for item in graph
+            if num_parents[item] == 0 and item not in source
+        ]
+    )
 
     # Descend through graph, removing parents as we go.
     for parent in result:
